@@ -45,11 +45,11 @@ PROPS = {
                "origin+turns, origin+small, sentinel, far, uniform [-2pi,2pi]) through inverse_continuing, inverse+inverse_continuing "
                "on the same query (superset) and inverse_continuing_5dof; dense random-walk trajectories of 200 steps where each "
                "call's previous is the preceding first answer. non-trivial = at least one solution returned"),
-    "C02": cfg(3000, 300000, ["C02."],
+    "C02": dict(cfg(3000, 300000, ["C02."],
                "robot zoo x random joint vectors kept away from wrist/elbow/shoulder singularities by margins {1e-3,1e-2,1e-1} on "
                "|sin theta5|, |sin(theta3+psi3)| and |cx1| (computed by the generator and re-checked by the driver's oracle); for "
                "each: answers of inverse(forward(q)) and the size of the answer set of the pose of every returned solution; every third "
-               "case also the private inverse_intern (hook). non-trivial = at least one answer"),
+               "case also the private inverse_intern (hook). non-trivial = at least one answer"), extra_modules=["C02b"]),
     "C05": cfg(1500, 100000, ["C05."],
                "hook-level is_close_to_multiple_of_pi / are_angles_close on the grid k*pi +- {0, thr/2, thr(1+-1e-6), 2thr, 1e-9, 0.1}, "
                "k in -4..4; kinematic_singularity through wrapper stacks on robots with J5 offsets and negative J5 sign at the same "
@@ -116,4 +116,11 @@ PROPS = {
                "underscores, punctuation) or explicit joint-name lists; derived error cases (missing joint, conflicting duplicate, "
                "truncated, non-numeric, empty, wrong value count); 2n generated names through the private preprocess_joint_name (hook). "
                "Each line carries sxd-document's own DOM. non-trivial = extraction returned Ok"),
+    "C12": cfg(40, 1500, ["C12."],
+               "hook level: with_intermediate_poses on random land/steps/park with step sizes {0.01,0.02,0.05,0.5} m and {1,3,28} deg, "
+               "compared exactly with the model. API level: Cartesian::plan on robots with shape in three obstacle layouts (free, an "
+               "object next to the stroke, a thin plate across it) x strokes of 1-3 steps and 3-25 cm x cost limits {3,6,17} deg x "
+               "recursion depths {0,2,6,8} x include_linear_interpolation on/off x rayon pools 1,2,4,16; per returned waypoint the same "
+               "robot's collides() and compliant(); every second problem re-planned under pools 1,3,16. The Cartesian part of each "
+               "returned plan is recomputed by the model from the landing solution. non-trivial = a plan was returned"),
 }
